@@ -229,6 +229,19 @@ pub trait DualNum<F>:
     }
 }
 
+/// Power series of the spherical Bessel function of the first kind without its prefactor,
+/// `j_n(x) = x^n / (2n+1)!! * sum_k (-x^2)^k / prod_{i=1..k} 2i(2n+2i+1)`.
+/// Used for small arguments, where the closed forms cancel catastrophically.
+#[doc(hidden)]
+pub fn sph_bessel_series<D: DualNum<F>, F: DualNumFloat>(x: &D, n: usize) -> D {
+    let z = x.clone() * x;
+    let mut t = D::one();
+    for i in (1..=12).rev() {
+        t = D::one() - z.clone() / F::from(2 * i * (2 * n + 2 * i + 1)).unwrap() * t;
+    }
+    t
+}
+
 /// The underlying data type of individual derivatives. Usually f32 or f64.
 pub trait DualNumFloat:
     Float + FloatConst + FromPrimitive + Signed + fmt::Display + fmt::Debug + Sync + Send + 'static
@@ -350,15 +363,15 @@ macro_rules! impl_dual_num_float {
                 <$float>::atanh(*self)
             }
             fn sph_j0(&self) -> Self {
-                if self.abs() < <$float>::EPSILON {
-                    1.0 - self * self / 6.0
+                if self.abs() < 1.0 {
+                    sph_bessel_series::<$float, $float>(self, 0)
                 } else {
                     self.sin() / self
                 }
             }
             fn sph_j1(&self) -> Self {
-                if self.abs() < <$float>::EPSILON {
-                    self / 3.0
+                if self.abs() < 1.0 {
+                    self / 3.0 * sph_bessel_series::<$float, $float>(self, 1)
                 } else {
                     let sc = self.sin_cos();
                     let rec = self.recip();
@@ -366,8 +379,8 @@ macro_rules! impl_dual_num_float {
                 }
             }
             fn sph_j2(&self) -> Self {
-                if self.abs() < <$float>::EPSILON {
-                    self * self / 15.0
+                if self.abs() < 1.0 {
+                    self * self / 15.0 * sph_bessel_series::<$float, $float>(self, 2)
                 } else {
                     let sc = self.sin_cos();
                     let s2 = self * self;
